@@ -337,6 +337,60 @@ def d3_sqlite_run(carve):
     return o
 
 
+def d8_run(carve):
+    """unions: the static type of every result column is the common type of the two operand columns OF THAT NAME (operands may
+    list their columns in different orders and with different but compatible types), and the exported frame has it"""
+    import itertools
+
+    import polars as pl
+    import sqlalchemy as sqa
+
+    cols = {
+        "i": (pl.Int64, [1, None, 3]), "j": (pl.Int32, [4, 5, None]), "f": (pl.Float64, [0.5, None, 2.5]), "s": (pl.String, ["x", None, "z"]), "b": (pl.Boolean, [True, None, False]),
+    }
+    # per result name: the right operand's column of that name is built from this source column
+    variants = [
+        {"i": "i", "f": "f", "s": "s"}, {"i": "f", "f": "i", "s": "s"}, {"i": "j", "f": "j", "s": "s"}, {"i": "i", "f": "i", "s": "s", "b": "b"}, {"i": "j", "f": "f", "b": "b"},
+    ]
+    L = pl.DataFrame({k: pl.Series(k, v, dtype=t) for k, (t, v) in cols.items()})
+    eng = sqa.create_engine("sqlite://")
+    L.write_database("l", eng)
+    L.write_database("r", eng)
+    n, bad = 0, []
+    with warnings.catch_warnings():
+        warnings.simplefilter("ignore")
+        for be in ("polars", "sqlite"):
+            for var in variants:
+                names = list(var)
+                for perm in itertools.islice(itertools.permutations(names), 0, 6):
+                    l = pdt.Table(L, name="l") if be == "polars" else pdt.Table("l", pdt.SqlAlchemy(eng))
+                    r = pdt.Table(L, name="r") if be == "polars" else pdt.Table("r", pdt.SqlAlchemy(eng))
+                    lab = f"[{be}] l.select({','.join(names)}) | r.(" + ", ".join(f"{nm}=r.{var[nm]}" for nm in perm) + ")"
+                    n += 1
+                    try:
+                        left = l >> pdt.select(*[l[nm] for nm in names])
+                        right = r >> pdt.mutate(**{"_" + nm: r[var[nm]] for nm in perm}) >> pdt.select(*[pdt.C["_" + nm] for nm in perm]) >> pdt.rename({"_" + nm: nm for nm in perm})
+                        u = left >> pdt.union(right)
+                        df = u >> pdt.export(pdt.Polars())
+                    except Exception as e:  # noqa: BLE001
+                        bad.append(f"{lab}: raises {type(e).__name__}: {str(e)[:100]}")
+                        continue
+                    for nm in names:
+                        want = T.lca_type([left[nm].dtype(), right[nm].dtype()])
+                        static = T.without_const(u[nm].dtype())
+                        if static != want or type(static) is not type(want):
+                            bad.append(f"{lab}: column {nm} is announced as {static}; the operand columns of that name are {left[nm].dtype()} and {right[nm].dtype()} (common type {want})")
+                            continue
+                        if be == "polars":
+                            msg = check_type(static, df.schema[nm])
+                        else:
+                            fs, fg = TU.family(static), TU.family(Dtype.from_polars(df.schema[nm]))
+                            msg = None if fs == fg or (fs == "bool" and fg == "int") else f"static family {fs} ({static}), exported {df.schema[nm]}"
+                        if msg:
+                            bad.append(f"{lab}: column {nm}: {msg}")
+    return _enum_outcome("the static type of a union column is the common type of the operand columns of that name and the exported frame has it", n, bad)
+
+
 def d6_run(carve):
     """verbs: the exported dtype of EVERY visible column after every pipeline (joins with keys of different numeric type,
     unions, summarize, window mutate, rename, ...) matches the static dtype the table reports"""
@@ -447,6 +501,8 @@ def obligations(tier):
         Obligation("C12/D3/sqlite_ops", "D3", "exported SQLite column family vs static type", d3_sqlite_run, functions=[fi(H.sql_backend.SqlImpl.compile_col_expr), fi(H.sql_backend.SqlImpl.export), fi(H.sqlite_backend.SqliteImpl.fix_fn_types)], bounded="Int64/Float64/String/Bool columns, arity <= 2 (native SQLite execution)", carveouts={"sqlite_dynamic_typing": "int/float family under SQLite's dynamic typing"}),
         Obligation("C12/D6/verbs", "D6", "exported dtypes of all columns after enumerated pipelines (joins with differently typed keys, unions, summarize, windows)", d6_run, functions=[fi(H.polars_backend.compile_ast), fi(H.sql_backend.SqlImpl.export), fi(pdt._internal.pipe.cache.Cache.update)],
                    bounded="pipelines of depth <= 2 over the C01 step alphabet plus 6 joins with Int32/Float64 == Int64 keys; one input table; native execution on Polars and SQLite", carveouts={"sqlite_dynamic_typing": "int/float family under SQLite's dynamic typing", "int_as_float": "Int column through a Float-only operator"}),
+        Obligation("C12/D8/union_types", "D8", "union: static column types are the common types of the operand columns by name; exported dtypes follow", d8_run, functions=[fi(pdt._internal.pipe.cache.Cache.update), fi(H.polars_backend.compile_ast), fi(H.sql_backend.SqlImpl.compile_ast)],
+                   bounded="5 type assignments x up to 6 column orders of the right operand x 2 backends"),
         Obligation("C12/D7/sql_import", "D7", "types of an imported SQL table follow the database, not an earlier import", d7_run, functions=[fi(H.sql_backend.SqlImpl.__init__), fi(H.sql_backend.SqlImpl.pdt_type)], bounded="three table versions under one name on one in-memory SQLite engine"),
         Obligation("C12/D5/reimport", "D5", "re-import / collect reproduce the types", d5_run, functions=[fi(pdt._internal.pipe.verbs.collect), fi(H.polars_backend.PolarsImpl.__init__)], bounded="4 pipelines"),
     ]
